@@ -34,7 +34,9 @@ Record obs := {
 
 Record step := { s_env : env; s_caller : nat; s_op : op V; s_obs : obs }.
 
-Inductive case := Case (callers : list caller) (steps : list step).
+Inductive case :=
+| Case (callers : list caller) (steps : list step)
+| Golden (expected observed : disk_dump).   (* a file written by the pinned release, reopened by the current tree *)
 
 Definition nobody : caller := {| principal := 0; rules := [] |}.
 Definition get_caller (cs : list caller) (i : nat) : caller := nth i cs nobody.
@@ -130,14 +132,17 @@ Definition judge_C02 (s s' : dbstate V) (r : result V) (fx : list effect) (st : 
   result_beq r (o_res (s_obs st)) && live_ok (kv s') (s_obs st).
 
 Definition check_C02 (c : case) : bool :=
-  let '(Case cs steps) := c in run_pure judge_C02 cs start steps.
+  match c with Case cs steps => run_pure judge_C02 cs start steps | Golden _ _ => true end.
 
 (* ---------- C03: the reopened file equals the acknowledged state, counters included ---------- *)
 Definition judge_C03 (s s' : dbstate V) (r : result V) (fx : list effect) (st : step) : bool :=
   disk_beq (disk_of (kv s')) (o_disk (s_obs st)).
 
 Definition check_C03 (c : case) : bool :=
-  let '(Case cs steps) := c in run_pure judge_C03 cs start steps.
+  match c with
+  | Case cs steps => run_pure judge_C03 cs start steps
+  | Golden expected observed => disk_beq expected observed
+  end.
 
 (* ---------- C04 (rollback part): after a failed save the state served, the file, the
    write generation and all later results are those of the model ---------- *)
@@ -146,7 +151,7 @@ Definition judge_C04 (s s' : dbstate V) (r : result V) (fx : list effect) (st : 
   && disk_beq (disk_of (kv s')) (o_disk (s_obs st)) && (gen s' =? o_gen (s_obs st)).
 
 Definition check_C04 (c : case) : bool :=
-  let '(Case cs steps) := c in run_pure judge_C04 cs start steps.
+  match c with Case cs steps => run_pure judge_C04 cs start steps | Golden _ _ => true end.
 
 (* ---------- C01: the access decision and its consequences, step by step ---------- *)
 Definition is_denied (r : result V) : bool := match r with RDenied => true | _ => false end.
@@ -181,7 +186,7 @@ Definition judge_C01 (cs : list caller)
      end.
 
 Definition check_C01 (c : case) : bool :=
-  let '(Case cs steps) := c in run_resync (judge_C01 cs) cs start (Some []) steps.
+  match c with Case cs steps => run_resync (judge_C01 cs) cs start (Some []) steps | Golden _ _ => true end.
 
 (* ---------- C06: audit records and their order relative to effects and results ---------- *)
 Definition judge_C06 (s s' : dbstate V) (r : result V) (fx : list effect) (prev : option live_dump) (st : step) : bool :=
@@ -194,7 +199,7 @@ Definition judge_C06 (s s' : dbstate V) (r : result V) (fx : list effect) (prev 
       else Bool.eqb (carries_data r) (carries_data (o_res o))).
 
 Definition check_C06 (c : case) : bool :=
-  let '(Case cs steps) := c in run_resync judge_C06 cs start (Some []) steps.
+  match c with Case cs steps => run_resync judge_C06 cs start (Some []) steps | Golden _ _ => true end.
 
 (* ---------- C09: conditional get ---------- *)
 Definition judge_C09 (s s' : dbstate V) (r : result V) (fx : list effect) (prev : option live_dump) (st : step) : bool :=
@@ -204,7 +209,7 @@ Definition judge_C09 (s s' : dbstate V) (r : result V) (fx : list effect) (prev 
   end.
 
 Definition check_C09 (c : case) : bool :=
-  let '(Case cs steps) := c in run_resync judge_C09 cs start (Some []) steps.
+  match c with Case cs steps => run_resync judge_C09 cs start (Some []) steps | Golden _ _ => true end.
 
 (* ---------- compact constructors used by the generated case files ---------- *)
 Definition St (ok : bool) (au : afault) (c : nat) (o : op V) (r : result V) (fx : list effect)
